@@ -102,6 +102,13 @@ pub fn run_case(case: &Case, want_log: bool) -> RunResult {
         case.knobs()
     ));
 
+    if case.param("copy_scenario", 0) == 1 {
+        // COPY FROM parses its file on a blocking-pool thread that blocks on the runtime
+        // (`blocking_send`): such a job cannot run inline. This run uses the real pool; the
+        // scheduler waits (bounded) for it between polls, and the verdict of the scenario does
+        // not depend on who is faster.
+        unsafe { std::env::remove_var("RLSIM_INLINE_BLOCKING") };
+    }
     run_sim(tokio_seed, async {
         match engine_of(&case.prop) {
             "hist" => crate::hist::run(&mut cx).await,
